@@ -283,13 +283,15 @@ Definition ok_history : list op :=
   [OCreateDir [100; 47; 107; 47] false; OCreateDir [100; 47; 110; 47; 120] false; OWrite [102; 47; 120] [9] false;
    OList [100] PAll false; OExists [100; 47; 107] false].
 Example C12_example_history_create_dir :
-  let '(S1, r) := fs_write ok_id ok_fs [100; 47; 110] [7] false in
-  r = FOk tt /\ Forall (op_elsewhere ok_fs [[100]; [110]]) ok_history /\
+  exists S1, fs_write ok_id ok_fs [100; 47; 110] [7] false = (S1, FOk tt) /\
+  Forall (op_elsewhere ok_fs [[100]; [110]]) ok_history /\
   fs_read ok_id (fs_run ok_id ok_id S1 ok_history) [100; 47; 110] false = FOk [7] /\
   fs_exists (fs_run ok_id ok_id S1 ok_history) [100; 47; 107] false = FOk true.
 Proof.
-  vm_compute. split; [reflexivity|]. split; [|split; reflexivity].
-  repeat constructor. intros s qq tr H. injection H as _ <- _. discriminate.
+  eexists. split; [vm_compute; reflexivity|]. split; [|split; [vm_compute; reflexivity | vm_compute; reflexivity]].
+  unfold ok_history. repeat constructor. unfold op_elsewhere. intros s qq tr H.
+  assert (E : fs_addr ok_fs [102; 47; 120] false = FOk ([102; 47; 120], ([[102]; [120]], false))) by (vm_compute; reflexivity).
+  rewrite E in H. injection H as _ <- _. discriminate.
 Qed.
 
 (* exists / file_exists / directory_exists / resolve: the same top-down search over the same addressed location *)
